@@ -893,6 +893,7 @@ func (x *Exec) interfere(st *State, why string) {
 			}
 		}
 	}
+	x.havocEscaped(st)
 	st.Trace = append(st.Trace, "interference@"+why)
 	x.assumeStrong(st)
 }
@@ -1091,11 +1092,57 @@ func (x *Exec) send(st *State, fr *Frame, i *ssa.Send) {
 	st.Assume(Not(st.closed(ch.Term)))
 	x.closeOnlyCheck(st, ap, ch.Term, k, i.Pos())
 	x.logSend(st, ap, v)
+	x.markEscaped(st, v)
 	// whatever was sent (and what it reaches) is shared from now on
 	x.checkObjInvsOnShare(st, "send:"+ap, i.Pos())
 	st.FreshRefs = map[string]bool{}
 	st.FreshList = nil
 	st.Trace = append(st.Trace, "send "+ap)
+}
+
+// markEscaped: a pointer to a struct sent on a channel is in the hands of the receiver from now on.
+func (x *Exec) markEscaped(st *State, v *Val) {
+	if v == nil || v.Term == nil || pointee(v.T) == nil {
+		return
+	}
+	ns := namedStruct(pointee(v.T))
+	if ns == nil {
+		return
+	}
+	st.Escaped = append(st.Escaped[:len(st.Escaped):len(st.Escaped)], escapedRef{v.Term, ns})
+}
+
+// havocEscaped: the receiver of an object sent away may change, at any time, every field of it that code outside the
+// package can reach: exported fields and fields assigned by exported methods (e.g. Message.SetContext); the contents
+// of maps stored in such fields change with them. Monitor-guarded fields follow the monitor rules instead.
+func (x *Exec) havocEscaped(st *State) {
+	for _, e := range st.Escaped {
+		tc := x.V.C.Types[typeName(e.Root)]
+		stt, ok := e.Root.Underlying().(*types.Struct)
+		if !ok {
+			continue
+		}
+		for k := 0; k < stt.NumFields(); k++ {
+			f := stt.Field(k)
+			guarded := false
+			if tc != nil {
+				for _, m := range tc.Monitors {
+					if m.Guards[f.Name()] {
+						guarded = true
+					}
+				}
+			}
+			if guarded || !(f.Exported() || x.V.fieldSetByExportedMethod(e.Root, f.Name())) {
+				continue
+			}
+			if _, isChan := f.Type().Underlying().(*types.Chan); isChan {
+				continue
+			}
+			nv := freshVal(f.Type(), "esc$"+sanitize(f.Name()))
+			st.assumeValAllocated(nv)
+			st.storePath(e.Root, e.Ref, f.Name(), f.Type(), nv)
+		}
+	}
 }
 
 // closeOnlyCheck: channels marked close-only (ghost closeonly NAME at their make) are never sent on. The obligation
@@ -1231,6 +1278,7 @@ func (x *Exec) selectStmt(st *State, fr *Frame, i *ssa.Select) {
 			sv := x.val(s1, s1.Top(), c.Send)
 			x.siteAsserts(s1, s1.Top(), "send:"+ap, i.Pos())
 			x.logSend(s1, ap, sv)
+			x.markEscaped(s1, sv)
 			x.checkObjInvsOnShare(s1, "send:"+ap, i.Pos())
 			s1.FreshRefs = map[string]bool{}
 			s1.FreshList = nil
